@@ -159,3 +159,110 @@ pub fn add_virtual_error(r: &Row, rs: &Rs, cw: &mut [u8], b: usize, p: usize, e:
         cw[r.data + b + j * r.blocks] ^= *v;
     }
 }
+
+/// a family of "structured" syndrome prefixes that make the locator search take its rare branches
+pub fn structured_syndromes(rng: &mut Rng, w: usize) -> Vec<u8> {
+    let a = 1 + rng.below(255) as u8;
+    let r = 1 + rng.below(255) as u8;
+    match rng.below(7) {
+        // geometric sequence: every leading minor beyond the first is singular
+        0 => {
+            let mut v = Vec::with_capacity(w);
+            let mut x = a;
+            for _ in 0..w {
+                v.push(x);
+                x = gf::mul(x, r);
+            }
+            v
+        }
+        // a single non-zero entry somewhere
+        1 => {
+            let mut v = vec![0u8; w];
+            let p = rng.below(w);
+            v[p] = a;
+            v
+        }
+        // first and one later entry non-zero (long run of zeros in between)
+        2 => {
+            let mut v = vec![0u8; w];
+            v[0] = a;
+            if w > 1 {
+                let p = rng.range(1, w - 1);
+                v[p] = r;
+            }
+            v
+        }
+        // constant
+        3 => vec![a; w],
+        // period two
+        4 => (0..w).map(|i| if i % 2 == 0 { a } else { r }).collect(),
+        // zeros then geometric
+        5 => {
+            let z = rng.below(w);
+            let mut v = vec![0u8; w];
+            let mut x = a;
+            for e in v.iter_mut().skip(z) {
+                *e = x;
+                x = gf::mul(x, r);
+            }
+            v
+        }
+        // low-order linear recurrence s_{i+2} = p s_{i+1} + q s_i
+        _ => {
+            let (p, q) = (rng.byte(), 1 + rng.below(255) as u8);
+            let mut v = vec![a, r];
+            while v.len() < w {
+                let n = v.len();
+                v.push(gf::mul(p, v[n - 1]) ^ gf::mul(q, v[n - 2]));
+            }
+            v.truncate(w);
+            v
+        }
+    }
+}
+
+/// error pattern of weight exactly `w` in block `b` (random distinct positions) whose first `w`
+/// syndromes S_1..S_w equal `target`; None if the values cannot all be non-zero
+pub fn pattern_with_syndromes(rng: &mut Rng, r: &Row, b: usize, w: usize, target: &[u8]) -> Option<Vec<(usize, u8)>> {
+    let pos = r.block_positions(b);
+    let n = pos.len();
+    let mut idx: Vec<usize> = (0..n).collect();
+    rng.shuffle(&mut idx);
+    idx.truncate(w);
+    // position index i in the block word has degree n-1-i, locator X = 2^(n-1-i)
+    let xs: Vec<u8> = idx.iter().map(|i| gf::pow2(n - 1 - *i)).collect();
+    let mut m = vec![vec![0u8; w]; w];
+    for (l, x) in xs.iter().enumerate() {
+        let mut p = *x;
+        for row in m.iter_mut().take(w) {
+            row[l] = p;
+            p = gf::mul(p, *x);
+        }
+    }
+    let e = gf::solve(m, target.to_vec())?;
+    if e.iter().any(|v| *v == 0) {
+        return None;
+    }
+    Some(idx.iter().zip(e).map(|(i, v)| (pos[*i], v)).collect())
+}
+
+/// add to block b's error-codeword part the (unique) polynomial of degree < k whose k syndromes equal `target`
+pub fn set_all_syndromes(r: &Row, cw: &mut [u8], b: usize, target: &[u8]) {
+    let k = r.k();
+    // unknown coefficients c_0..c_{k-1} of x^0..x^{k-1}; S_j = sum c_i (2^j)^i
+    let mut m = vec![vec![0u8; k]; k];
+    for j in 0..k {
+        let x = gf::pow2(j + 1);
+        let mut p = 1u8;
+        for i in 0..k {
+            m[j][i] = p;
+            p = gf::mul(p, x);
+        }
+    }
+    if let Some(c) = gf::solve(m, target.to_vec()) {
+        // coefficient of x^i sits at ecc index k-1-i of the block
+        for (i, v) in c.iter().enumerate() {
+            cw[r.data + b + (k - 1 - i) * r.blocks] ^= *v;
+        }
+    }
+}
